@@ -54,6 +54,11 @@ def corpus():
     out.append({"text": "query A { a { b } } query B { a { b { c } } }", "vars": {}, "limit": 0, "filter": "B"})
     out.append({"text": "query A { a { b } } query B { a { b { c } } }", "vars": {}, "limit": 0, "filter": ""})
     out.append({"text": "query A { a { b } } query B { a { b { c } } }", "vars": {}, "limit": 0, "filter": "Z"})
+    # seed C19-h: an anonymous operation is not the operation the filter names
+    for text in ["{ a { b { c { d } } } }", "{ ...F } fragment F on T { a { b { c { d } } } }",
+                 "query { a { b { c } } } query Named { a }", "{ a { b } } { a { b { c } } }"]:
+        for flt in ("Named", "Other", "", "<ANONYMOUS>"):
+            out.append({"text": text, "vars": {}, "limit": 0, "filter": flt})
     # seed C19-g: the filter restricts the check to the operation of exactly that name
     for flt in ("HeroDetails", "Hero", "Her", "HeroDetailsX", "hero"):
         out.append({"text": "query Hero { a { b { c { d } } } } query HeroDetails { a } query Her { a { b { c } } }",
@@ -99,6 +104,14 @@ def generate(rng, tier):
         cases.append({"text": text, "vars": variables, "limit": rng.randint(-1, 6), "filter": flt})
         # limit -2 flags every measured operation, exposing each measured depth
         cases.append({"text": text, "vars": variables, "limit": -2, "filter": None})
+        # the name filter against every operation (also anonymous ones, seed C19-h): with limit -2 every
+        # operation the filter lets through is reported
+        if rng.random() < 0.35:
+            if rng.random() < 0.4:
+                # make one operation anonymous (several operations, one of them anonymous, still parse)
+                text = re.sub(r"\bquery \w+ \{", "{", text, count=1)
+            cases.append({"text": text, "vars": variables, "limit": -2,
+                          "filter": rng.choice(["Op0", "Op1", "Nope", "Hero", "A", "query", "ANONYMOUS", "<ANONYMOUS>"])})
     # histories: ONE rule instance and ONE parsed document called with several variable
     # assignments (same keys, different values steering @skip/@include across the limit)
     nh = 60 if tier == "quick" else 800
